@@ -1,26 +1,27 @@
 import OxiVerif.Lemmas.C22
+import OxiVerif.Model.C22Old
 /-!
 # C22 — batch processing reports every job exactly once under any schedule
 
 Theorems about the transition system `OxiVerif.C22.step` (Model/C22.lean, a transcription of
 `batch/worker.rs`, `batch/mod.rs`, `batch/progress.rs`), for ANY job list, ANY number of workers,
-ANY outcome vector and ANY interleaving (`Reachable` = any finite sequence of atomic actions):
-no bound anywhere.
+ANY outcome vector (success, error, panic, custom and non-custom jobs) and ANY interleaving
+(`Reachable` = any finite sequence of atomic actions): no bound anywhere.
 
-/- FULL (the property as stated):
-   ∀ cfg s, Reachable cfg s → quiescent s →
+The FULL statement of the property is proved (`C22_quiescent`, `C22_stop_on_error`,
+`C22_execute_returns`, `C22_every_step_decreases`):
+   ∀ cfg s, 0 < cfg.workers → Reachable cfg s → quiescent s →
         (summary cfg s).map Prod.fst = List.range cfg.jobs.length          -- one result per job, in order
       ∧ s.completed = countKind .success (summary cfg s)                   -- progress consistent
       ∧ s.failed = countKind .failed (summary cfg s) ∧ s.running = 0
-      ∧ (cfg.soe → s.ranLateF = [])          -- nothing that started after a recorded failure ran
-   and `execute` always returns (no `stuck` state is reachable).
-   FALSE of the current code in four ways, each with a kernel-checked witness below:
-     C22_witness_panic_loses_result, C22_witness_panic_hangs_execute,
-     C22_witness_custom_ignores_stop_on_error, C22_witness_queued_job_runs_after_failure. -/
+      ∧ s.completed + s.failed + countKind .cancelled (summary cfg s) = cfg.jobs.length
+   ∀ cfg s, Reachable cfg s → cfg.soe → s.ranLateF = []   -- nothing that started after a recorded failure ran
+   and `execute` always returns (no deadlock before quiescence, every run is finite).
+It was FALSE of the code before the repairs of C22-F1/F1b/F2/F3; the counter-witnesses at the end
+of this file are kernel-checked statements about the PRE-repair transition relation
+`OxiVerif.C22Old.step` (Model/C22Old.lean) — the regressions the check must catch.
 -/
 namespace OxiVerif.C22
-
-def panicFree (cfg : Cfg) : Prop := ∀ j ∈ cfg.jobs, j.out ≠ .panic
 
 /-- Every index is reported at most once, and only indices of submitted jobs are reported. -/
 theorem C22_results_unique {cfg : Cfg} {s : St} (h : Reachable cfg s) :
@@ -67,21 +68,21 @@ theorem check_sound {cfg : Cfg} {as : List Act} {p : St → Bool} (h : check cfg
 def cfgEx : Cfg := ⟨[⟨true, .ok, false⟩, ⟨false, .err, false⟩], 2, false, false, false, false⟩
 def actsEx : List Act :=
   [.dLoad, .dEnq, .deq false, .dLoad, .dEnq, .deq false, .w 1, .w 0, .w 0, .w 1, .w 1, .w 0, .w 0, .w 1,
-   .w 0, .w 1, .w 0, .dClose]
+   .w 0, .w 1, .w 0, .w 1, .w 1, .dClose]
 
-example : ∃ s, Reachable cfgEx s ∧ (quiescent s && decide (s.sent.length = 2)) = true :=
+example : ∃ s, Reachable cfgEx s ∧ (quiescent s && decide (s.sent = [(0, .success), (1, .failed)])) = true :=
   check_sound (as := actsEx) (by decide)
 
 /-- Progress counters at every moment of every execution:
-`running = started − finished` (no wrap-around), `running` = jobs between `start_job` and
-`fetch_sub` plus jobs whose operation panicked, `completed`/`failed` = Success/Failed results
-already sent plus the jobs between the counter increment and their `send`. -/
+`running = started − finished` (no wrap-around of the `usize`), `running` = jobs between
+`start_job` and `fetch_sub`, `completed`/`failed` = Success/Failed results already sent plus the
+jobs between the counter increment and their `send`; every worker thread is idle or holds one job. -/
 theorem C22_progress_invariant {cfg : Cfg} {s : St} (h : Reachable cfg s) :
     s.startedN = s.finishedN + s.running
-    ∧ s.running = s.inflight.countP isRun + s.lost.length
+    ∧ s.running = s.inflight.countP isRun
     ∧ s.completed = countKind .success s.sent + s.inflight.countP (isCnt true)
     ∧ s.failed = countKind .failed s.sent + s.inflight.countP (isCnt false)
-    ∧ s.idleK + s.idleN + s.inflight.length + s.storing.length + s.lost.length = cfg.workers := by
+    ∧ s.idleK + s.idleN + s.inflight.length = cfg.workers := by
   have inv := inv_reachable h
   exact ⟨inv.ghost, inv.running, inv.completed, inv.failed, inv.workers⟩
 
@@ -146,40 +147,65 @@ theorem summary_perm_sent {cfg : Cfg} {s : St} (hn : (s.sent.map Prod.fst).Nodup
     rw [hfst]
     exact (List.nodup_range).filter _
 
-/-- FULL statement restricted to panic-free job lists (any `stop_on_error`, any cancellation):
-when processing has returned, the summary holds exactly one result per submitted job, in
-submission order, the progress counters equal the Success / Failed counts of the summary and
-nothing is left running.  (The `stop_on_error` ordering clause is NOT part of this theorem.) -/
-example : panicFree cfgEx ∧ 0 < cfgEx.workers := by
-  refine ⟨?_, by decide⟩
-  intro j hj; simp [cfgEx] at hj; rcases hj with rfl | rfl <;> simp
 
-theorem C22_quiescent_partial {cfg : Cfg} {s : St} (h : Reachable cfg s) (hq : quiescent s = true)
-    (hpf : panicFree cfg) (hw : 0 < cfg.workers) :
-    (summary cfg s).map Prod.fst = List.range cfg.jobs.length
-    ∧ s.completed = countKind .success (summary cfg s)
-    ∧ s.failed = countKind .failed (summary cfg s)
-    ∧ s.running = 0 := by
+/-- `Success`, `Failed` and `Cancelled` partition any list of results
+(`BatchResult::{success_count, failure_count, cancelled_count}` add up to the number of results). -/
+theorem C22_summary_partition (l : List (Nat × Kind)) :
+    countKind .success l + countKind .failed l + countKind .cancelled l = l.length := by
+  induction l with
+  | nil => rfl
+  | cons m l ih =>
+    obtain ⟨i, k⟩ := m
+    cases k <;> simp [countKind, List.filter_cons] at ih ⊢ <;> omega
+
+example : resultCounts [(0, .success), (1, .cancelled), (2, .failed), (3, .success)] = (2, 1, 1) := by decide
+
+/-- `BatchProcessor::execute`'s counting loop computes exactly the Success / Failed counts. -/
+theorem C22_tally_counts (l : List (Nat × Kind)) :
+    tally l = (countKind .success l, countKind .failed l) := by
+  induction l with
+  | nil => rfl
+  | cons m l ih =>
+    obtain ⟨i, k⟩ := m
+    cases k <;> simp [tally, ih, countKind, List.filter_cons]
+
+example : tally [(0, .success), (1, .cancelled), (2, .failed)] = (1, 1) := by decide
+
+/-- `all_successful` iff the success count is the number of results -/
+theorem C22_all_successful_iff (l : List (Nat × Kind)) :
+    allSuccessful l = true ↔ countKind .success l = l.length := by
+  induction l with
+  | nil => simp [allSuccessful, countKind]
+  | cons m l ih =>
+    obtain ⟨i, k⟩ := m
+    have hle : countKind .success l ≤ l.length := by unfold countKind; exact List.length_filter_le _ _
+    cases k
+    · have e1 : allSuccessful ((i, Kind.success) :: l) = allSuccessful l := by simp [allSuccessful]
+      have e2 : countKind .success ((i, Kind.success) :: l) = countKind .success l + 1 := by simp [countKind]
+      rw [e1, e2, ih]; simp
+    · have e1 : allSuccessful ((i, Kind.failed) :: l) = false := by simp [allSuccessful]
+      have e2 : countKind .success ((i, Kind.failed) :: l) = countKind .success l := by simp [countKind]
+      rw [e1, e2]; simp; omega
+    · have e1 : allSuccessful ((i, Kind.cancelled) :: l) = false := by simp [allSuccessful]
+      have e2 : countKind .success ((i, Kind.cancelled) :: l) = countKind .success l := by simp [countKind]
+      rw [e1, e2]; simp; omega
+
+/-- what is known when `process_jobs` has returned -/
+structure DoneFacts (cfg : Cfg) (s : St) : Prop where
+  order : (summary cfg s).map Prod.fst = List.range cfg.jobs.length
+  perm : (summary cfg s).Perm s.sent
+  completed : s.completed = countKind .success s.sent
+  failed : s.failed = countKind .failed s.sent
+  running : s.running = 0
+
+theorem done_facts {cfg : Cfg} {s : St} (h : Reachable cfg s) (hd : workersDone s = true)
+    (hw : 0 < cfg.workers) : DoneFacts cfg s := by
   have inv := inv_reachable h
   obtain ⟨hnodup, hbound⟩ := C22_results_unique h
-  simp only [quiescent, workersDone, Bool.and_eq_true, beq_iff_eq, List.isEmpty_iff, Bool.or_eq_true,
-    Bool.not_eq_true'] at hq
-  obtain ⟨⟨⟨⟨hcl, hin⟩, hst⟩, hqe⟩, _⟩ := hq
-  -- no panics: nothing was lost
-  have hlost : s.lost = [] := by
-    cases hl : s.lost with
-    | nil => rfl
-    | cons k t =>
-      have hp := inv.lostPanic k (by simp [hl])
-      exfalso
-      unfold specOf at hp
-      cases hj : cfg.jobs[k]? with
-      | none => simp [hj] at hp
-      | some j =>
-        simp only [hj, Option.getD_some] at hp
-        exact hpf j (List.mem_of_getElem? hj) hp
+  simp only [workersDone, Bool.and_eq_true, beq_iff_eq, List.isEmpty_iff, Bool.or_eq_true] at hd
+  obtain ⟨⟨hcl, hin⟩, hqe⟩ := hd
   have hidle : s.idleK + s.idleN = cfg.workers := by
-    have := inv.workers; simp [hin, hst, hlost] at this; exact this
+    have := inv.workers; simp [hin] at this; exact this
   have hqueue : s.queue = [] := by
     rcases hqe with h1 | h1
     · exact h1
@@ -190,51 +216,373 @@ theorem C22_quiescent_partial {cfg : Cfg} {s : St} (h : Reachable cfg s) (hq : q
     · exact h1
     · omega
   have hperm := summary_perm_sent hnodup hbound
-  refine ⟨?_, ?_, ?_, ?_⟩
+  refine ⟨?_, hperm, ?_, ?_, ?_⟩
   · unfold summary
     rw [fst_filterMap_lookup (fun i => lookupSent i s.sent)]
     apply List.filter_eq_self.mpr
     intro i hi
     have hi' : i < s.dnext := by rw [hdn]; simpa using hi
     have ht := inv.tok i
-    simp only [tok, hqueue, hin, hlost, idxs, hi', ↓reduceIte, List.map_nil, List.count_nil, Nat.add_zero] at ht
+    simp only [tok, hqueue, hin, idxs, hi', ↓reduceIte, List.map_nil, List.count_nil, Nat.add_zero] at ht
     have hmem : i ∈ s.sent.map Prod.fst := List.count_pos_iff.mp (by omega)
     obtain ⟨m, hm, rfl⟩ := List.mem_map.mp hmem
     have := lookupSent_of_mem (kd := m.2) hnodup (by simpa using hm)
     simp [this]
   · have := inv.completed
-    simp only [hin, List.countP_nil, Nat.add_zero] at this
-    rw [this]; unfold countKind; exact ((hperm.filter _).length_eq).symm
+    simpa only [hin, List.countP_nil, Nat.add_zero] using this
   · have := inv.failed
-    simp only [hin, List.countP_nil, Nat.add_zero] at this
-    rw [this]; unfold countKind; exact ((hperm.filter _).length_eq).symm
+    simpa only [hin, List.countP_nil, Nat.add_zero] using this
   · have := inv.running
-    simp [hin, hlost] at this; exact this
+    simpa [hin] using this
 
-/-! ### cancellation: the part of the ordering clause that does hold -/
+theorem countKind_perm {k : Kind} {l l' : List (Nat × Kind)} (h : l.Perm l') : countKind k l = countKind k l' := by
+  unfold countKind; exact (h.filter _).length_eq
+
+example : 0 < cfgEx.workers := by decide
+
+/-- FULL exactly-once clause — any job list (succeeding, failing AND panicking operations, custom and
+non-custom), any `stop_on_error`, any cancellation timing, any interleaving, ≥ 1 worker thread
+(the property's quantifier: parallelism 1..): when processing has returned, the summary holds
+exactly one result per submitted job, in submission order; the progress counters equal the
+Success / Failed counts of the summary, nothing is left running, and
+completed + failed + cancelled = total. -/
+theorem C22_quiescent {cfg : Cfg} {s : St} (h : Reachable cfg s) (hq : quiescent s = true)
+    (hw : 0 < cfg.workers) :
+    (summary cfg s).map Prod.fst = List.range cfg.jobs.length
+    ∧ s.completed = countKind .success (summary cfg s)
+    ∧ s.failed = countKind .failed (summary cfg s)
+    ∧ s.running = 0
+    ∧ s.completed + s.failed + countKind .cancelled (summary cfg s) = cfg.jobs.length := by
+  simp only [quiescent, Bool.and_eq_true] at hq
+  have d := done_facts h hq.1 hw
+  have hlen : (summary cfg s).length = cfg.jobs.length := by
+    have := congrArg List.length d.order
+    simpa using this
+  have hpart := C22_summary_partition (summary cfg s)
+  refine ⟨d.order, ?_, ?_, d.running, ?_⟩
+  · rw [d.completed]; exact (countKind_perm d.perm).symm
+  · rw [d.failed]; exact (countKind_perm d.perm).symm
+  · rw [d.completed, d.failed, ← countKind_perm d.perm, ← countKind_perm d.perm]; omega
+
+/-! ### cancellation and stop_on_error -/
 
 /-- one worker; job 0 sets the cancel flag from inside its operation, job 1 (custom) was queued before -/
 def cfgEx2 : Cfg := ⟨[⟨true, .ok, true⟩, ⟨true, .ok, false⟩], 1, false, false, false, false⟩
 def actsEx2 : List Act :=
   [.dLoad, .dEnq, .dLoad, .dEnq, .dClose, .deq false, .w 0, .w 0, .w 0, .w 0, .w 0, .w 0,
-   .deq false, .w 1, .w 1, .w 1, .w 1, .w 1]
+   .deq false, .w 1, .w 1]
 
-/-- job 1 calls `start_job` with the flag set, is reported `Failed` and its operation is not entered -/
+/-- job 1 looks at the flag, finds it set, is reported `Cancelled` and its operation is not entered -/
 example : ∃ s, Reachable cfgEx2 s ∧
-    (quiescent s && decide (s.ranLog = [0]) && decide (s.sent = [(0, .success), (1, .failed)])) = true :=
+    (quiescent s && decide (s.ranLog = [0]) && decide (s.sent = [(0, .success), (1, .cancelled)])) = true :=
   check_sound (as := actsEx2) (by decide)
 
-/-- A CUSTOM job that calls `start_job` when the cancel flag is already set never enters its
-operation: every operation entered by a job that started with the flag set belongs to a
-non-custom job (for those the code does not look at the flag — finding F3). -/
-theorem C22_custom_jobs_respect_flag {cfg : Cfg} {s : St} (h : Reachable cfg s) :
-    ∀ j ∈ s.ranLateC, (specOf cfg j).custom = false :=
-  (invC_reachable h).log
+/-- A job — custom or not — whose first statement finds the cancel flag set never enters its
+operation: it is reported `Cancelled` by the worker.  (Before the repair of C22-F3 this held for
+custom jobs only.) -/
+theorem C22_cancelled_jobs_never_run {cfg : Cfg} {s : St} (h : Reachable cfg s) : s.ranLateC = [] :=
+  (invS_reachable h).logC
 
-/-! ### counter-witnesses: the FULL statement is false of the code as it is
+/-- stop_on_error, one worker: a failing custom job, then a custom and a non-custom job queued behind it -/
+def cfgEx3 : Cfg := ⟨[⟨true, .err, false⟩, ⟨true, .ok, false⟩, ⟨false, .ok, false⟩], 1, true, false, false, false⟩
+def actsEx3 : List Act :=
+  [.dLoad, .dEnq, .dLoad, .dEnq, .dLoad, .dEnq, .dClose, .deq false, .w 0, .w 0, .w 0, .w 0, .w 0, .w 0, .w 0,
+   .deq true, .w 1, .w 1, .deq true, .w 2, .w 2]
 
-Each witness is a concrete action sequence of the model, replayed by the kernel (`decide`).
-The same behaviours are reproduced on the real code by `corpus/C22/*.req`. -/
+example : ∃ s, Reachable cfgEx3 s ∧ cfgEx3.soe = true ∧
+    (quiescent s && decide (s.ranLog = [0]) &&
+      decide (s.sent = [(0, .failed), (1, .cancelled), (2, .cancelled)])) = true := by
+  obtain ⟨s, h1, h2⟩ := check_sound (cfg := cfgEx3) (as := actsEx3)
+    (p := fun s => quiescent s && decide (s.ranLog = [0]) &&
+      decide (s.sent = [(0, .failed), (1, .cancelled), (2, .cancelled)])) (by decide)
+  exact ⟨s, h1, rfl, h2⟩
+
+/-- FULL stop-on-error clause — custom and non-custom jobs alike: with `stop_on_error`, no job whose
+first statement ran after a failure had been recorded (some job had entered `fail_job()`) ever
+enters its operation. -/
+theorem C22_stop_on_error {cfg : Cfg} {s : St} (h : Reachable cfg s) (hs : cfg.soe = true) :
+    s.ranLateF = [] :=
+  (invS_reachable h).logF hs
+
+/-- … because with `stop_on_error` the flag is raised before the failure is recorded: from the
+moment any job has entered `fail_job()` the cancel flag is set, and a `Cancelled` result is only
+ever reported while the flag is set. -/
+theorem C22_flag_before_record {cfg : Cfg} {s : St} (h : Reachable cfg s) :
+    (cfg.soe = true → 0 < s.failBegun → s.cancelled = true)
+    ∧ (∀ m ∈ s.sent, m.2 = .cancelled → s.cancelled = true) :=
+  ⟨(invS_reachable h).failBegun, (invS_reachable h).cancMsg⟩
+
+/-! ### termination: `execute()` always returns -/
+
+/-- when `process_jobs` has returned, the progress-callback thread can leave its loop: either
+every job was counted as completed or failed, or some job was reported `Cancelled` — and then the
+cancel flag is set -/
+theorem monitor_can_exit {cfg : Cfg} {s : St} (h : Reachable cfg s) (hd : workersDone s = true)
+    (hw : 0 < cfg.workers) : s.cancelled = true ∨ cfg.jobs.length ≤ s.completed + s.failed := by
+  have d := done_facts h hd hw
+  have hlen : s.sent.length = cfg.jobs.length := by
+    rw [← d.perm.length_eq]
+    have := congrArg List.length d.order
+    simpa using this
+  have hpart := C22_summary_partition s.sent
+  by_cases hc : countKind .cancelled s.sent = 0
+  · right; rw [d.completed, d.failed]; omega
+  · left
+    have hpos : 0 < (s.sent.filter (fun m => m.2 == Kind.cancelled)).length := by
+      unfold countKind at hc; omega
+    obtain ⟨m, hm⟩ := List.exists_mem_of_length_pos hpos
+    have hm' := List.mem_filter.mp hm
+    exact (invS_reachable h).cancMsg m hm'.1 (by simpa using hm'.2)
+
+/-- no reachable state is `stuck` (the state in which `execute` could never return) -/
+theorem C22_never_stuck {cfg : Cfg} {s : St} (h : Reachable cfg s) (hw : 0 < cfg.workers) :
+    stuck cfg s = false := by
+  cases hst : stuck cfg s with
+  | false => rfl
+  | true =>
+    exfalso
+    simp only [stuck, Bool.and_eq_true, Bool.not_eq_true', decide_eq_true_eq] at hst
+    obtain ⟨⟨⟨⟨hd, _⟩, hc⟩, hlt⟩, _⟩ := hst
+    rcases monitor_can_exit h hd hw with h1 | h1
+    · rw [hc] at h1; cases h1
+    · omega
+
+/-- one job, a progress callback, the operation panics: the configuration in which `execute` used to hang -/
+def cfgEx4 : Cfg := ⟨[⟨true, .panic, false⟩], 1, false, false, false, true⟩
+def actsEx4 : List Act := [.dLoad, .dEnq, .dClose, .deq false, .w 0, .w 0, .w 0, .w 0, .w 0, .w 0, .w 0, .monExit]
+
+/-- the panicking job is reported `Failed`, the callback thread leaves its loop, `execute` returns -/
+example : ∃ s, Reachable cfgEx4 s ∧
+    (quiescent s && decide (s.sent = [(0, .failed)]) && decide (s.failed = 1) && decide (s.running = 0)) = true :=
+  check_sound (as := actsEx4) (by decide)
+
+/-- No deadlock: in every reachable state in which `execute` / `process_jobs` has not yet returned,
+some thread can take a step (≥ 1 worker thread; any outcomes — panics included —, any
+`stop_on_error`, any cancellation, with or without progress callback). -/
+theorem C22_execute_returns {cfg : Cfg} {s : St} (h : Reachable cfg s) (hw : 0 < cfg.workers)
+    (hq : quiescent s = false) : ∃ a, (step cfg s a).isSome = true := by
+  have inv := inv_reachable h
+  cases hd : s.dpc with
+  | top =>
+    by_cases hlt : s.dnext < cfg.jobs.length
+    · exact ⟨.dLoad, by simp [step, hd, hlt]⟩
+    · exact ⟨.dClose, by simp [step, hd, hlt]⟩
+  | sendC => exact ⟨.dSendC, by simp [step, hd]⟩
+  | enq =>
+    refine ⟨.dEnq, ?_⟩
+    simp only [step, hd, ↓reduceIte]
+    split <;> rfl
+  | closed =>
+    cases hin : s.inflight with
+    | cons f l => exact ⟨.w f.idx, by simp [step, findFl, hin]⟩
+    | nil =>
+      have hidle : s.idleK + s.idleN = cfg.workers := by
+        have := inv.workers; simpa [hin] using this
+      cases hqu : s.queue with
+      | cons k q =>
+        by_cases hk : 0 < s.idleK
+        · exact ⟨.deq true, by simp [step, hqu, hk]⟩
+        · have hn : 0 < s.idleN := by omega
+          exact ⟨.deq false, by simp [step, hqu, hn]⟩
+      | nil =>
+        have hdone : workersDone s = true := by simp [workersDone, hd, hin, hqu]
+        have hmon : s.mon = true := by
+          simp only [quiescent, hdone, Bool.true_and, Bool.not_eq_false'] at hq
+          exact hq
+        refine ⟨.monExit, ?_⟩
+        have := monitor_can_exit h hdone hw
+        simp only [step, hmon, true_and]
+        rw [if_pos this]
+        rfl
+
+example : Reachable cfgEx (init cfgEx) ∧ quiescent (init cfgEx) = false := ⟨.init, by decide⟩
+
+/-- … and every run is finite: each action strictly decreases `measure` (a natural number: what
+the dispatcher, the queued jobs, the jobs in flight, the canceller and the callback thread still
+have to do).  Together with `C22_execute_returns`: under any schedule, after at most
+`measure cfg (init cfg)` actions `execute()` has returned. -/
+theorem C22_every_step_decreases {cfg : Cfg} {s s' : St} {a : Act} (h : Reachable cfg s)
+    (hs : step cfg s a = some s') : measure cfg s' < measure cfg s :=
+  meas_step (inv_reachable h) hs
+
+example : measure cfgEx (init cfgEx) = 21 := by decide
+
+/-! ### progress accounting: what a (non-atomic) snapshot can show -/
+
+theorem steps_reachable {cfg : Cfg} {s s' : St} (h : Reachable cfg s) (hs : Steps cfg s s') : Reachable cfg s' := by
+  induction hs with
+  | refl => exact h
+  | step _ hst ih => exact .step ih hst
+
+/-- The four progress counters never decrease … -/
+theorem C22_counters_monotone_step {cfg : Cfg} {s s' : St} {a : Act} (hs : step cfg s a = some s') :
+    s.completed ≤ s'.completed ∧ s.failed ≤ s'.failed ∧ s.startedN ≤ s'.startedN ∧ s.finishedN ≤ s'.finishedN := by
+  cases a with
+  | dLoad => simp only [step] at hs; split at hs <;> cases hs; simp
+  | dClose => simp only [step] at hs; split at hs <;> cases hs; simp
+  | dSendC => simp only [step] at hs; split at hs <;> cases hs; simp
+  | dEnq =>
+    simp only [step] at hs; split at hs
+    · split at hs <;> cases hs <;> simp
+    · cases hs
+  | extCancel => simp only [step] at hs; split at hs <;> cases hs; simp
+  | monExit => simp only [step] at hs; split at hs <;> cases hs; simp
+  | deq b =>
+    simp only [step] at hs
+    split at hs
+    · cases hs
+    · cases b
+      · simp only [Bool.false_eq_true, ↓reduceIte] at hs
+        split at hs <;> cases hs; simp
+      · simp only [↓reduceIte] at hs
+        split at hs <;> cases hs; simp
+  | w k =>
+    simp only [step] at hs
+    split at hs
+    · cases hs
+    · rename_i f hf
+      cases hs
+      unfold wstep
+      dsimp only
+      split
+      · simp
+      · unfold release; split <;> simp
+      · simp
+      · unfold runOp; dsimp only; split <;> simp
+      · simp
+      · simp
+      · rename_i r _; cases r <;> simp
+      · unfold release; split <;> simp
+
+/-- … along any run. -/
+theorem C22_counters_monotone {cfg : Cfg} {s s' : St} (hs : Steps cfg s s') :
+    s.completed ≤ s'.completed ∧ s.failed ≤ s'.failed ∧ s.startedN ≤ s'.startedN ∧ s.finishedN ≤ s'.finishedN := by
+  induction hs with
+  | refl => simp
+  | step _ hst ih =>
+    have := C22_counters_monotone_step hst
+    omega
+
+theorem length_le_of_nodup_lt : ∀ (n : Nat) (l : List Nat), l.Nodup → (∀ k ∈ l, k < n) → l.length ≤ n
+  | 0, l, _, hb => by
+    cases l with
+    | nil => simp
+    | cons a t => exact absurd (hb a (by simp)) (by omega)
+  | n + 1, l, hn, hb => by
+    have ih := length_le_of_nodup_lt n (l.erase n) (hn.erase n) (by
+      intro k hk
+      have h1 := (List.Nodup.mem_erase_iff hn).mp hk
+      have h2 := hb k h1.2
+      have h3 := h1.1
+      omega)
+    have : l.length ≤ (l.erase n).length + 1 := by
+      rw [List.length_erase]; split <;> omega
+    omega
+
+/-- at every moment: every counted job was submitted, and no more jobs run than there are workers -/
+theorem C22_counters_bounded {cfg : Cfg} {s : St} (h : Reachable cfg s) :
+    s.completed + s.failed ≤ cfg.jobs.length ∧ s.running ≤ cfg.workers
+    ∧ s.completed + s.failed + s.running ≤ s.dnext := by
+  have inv := inv_reachable h
+  obtain ⟨hnodup, hbound⟩ := C22_results_unique h
+  -- count the job indices: sent ∪ in flight ⊆ [0, dnext)
+  have hsub : (s.sent.map Prod.fst ++ idxs s.inflight).Nodup ∧
+      ∀ k ∈ (s.sent.map Prod.fst ++ idxs s.inflight), k < s.dnext := by
+    constructor
+    · rw [List.nodup_iff_count]
+      intro k
+      have := inv.tok k
+      unfold tok at this
+      rw [List.count_append]
+      split at this <;> omega
+    · intro k hk
+      have hpos : 0 < (s.sent.map Prod.fst ++ idxs s.inflight).count k := List.count_pos_iff.mpr hk
+      rw [List.count_append] at hpos
+      have := inv.tok k
+      unfold tok at this
+      split at this
+      · assumption
+      · omega
+  have hlen : s.sent.length + s.inflight.length ≤ s.dnext := by
+    have := length_le_of_nodup_lt s.dnext _ hsub.1 hsub.2
+    simpa [idxs] using this
+  have hpart := C22_summary_partition s.sent
+  have h3 : s.inflight.countP isRun + s.inflight.countP (isCnt true) + s.inflight.countP (isCnt false)
+      ≤ s.inflight.length := by
+    generalize s.inflight = l
+    induction l with
+    | nil => simp
+    | cons f l ih =>
+      simp only [List.countP_cons, List.length_cons]
+      have : (if isRun f = true then 1 else 0) + (if isCnt true f = true then 1 else 0)
+          + (if isCnt false f = true then 1 else 0) ≤ 1 := by
+        unfold isRun isCnt
+        cases f.pc <;> simp
+        rename_i r; cases r <;> simp
+      omega
+  have hr := inv.running
+  have hc := inv.completed
+  have hf := inv.failed
+  have hw := inv.workers
+  have hd := inv.dnext_le
+  have hrl : s.inflight.countP isRun ≤ s.inflight.length := List.countP_le_length
+  refine ⟨by omega, by omega, by omega⟩
+
+/-- `BatchProgress::get_info` reads `completed`, `failed` and `running` one after the other, so a
+progress callback sees values from three (ordered) moments `s1 →* s2 →* s3` of the run.  Whatever
+the interleaving, such a snapshot never reports more processed jobs than were submitted nor more
+running jobs than there are workers, and `is_complete()` on it is never true too early:
+if `completed + failed ≥ total` on the snapshot then every job really has been counted. -/
+theorem C22_snapshot_consistent {cfg : Cfg} {s1 s2 s3 : St} (h : Reachable cfg s1)
+    (h12 : Steps cfg s1 s2) (h23 : Steps cfg s2 s3) :
+    s1.completed + s2.failed ≤ cfg.jobs.length ∧ s3.running ≤ cfg.workers
+    ∧ (cfg.jobs.length ≤ s1.completed + s2.failed → s2.completed + s2.failed = cfg.jobs.length) := by
+  have r2 := steps_reachable h h12
+  have r3 := steps_reachable r2 h23
+  have m12 := C22_counters_monotone h12
+  have b2 := C22_counters_bounded r2
+  have b3 := C22_counters_bounded r3
+  refine ⟨by omega, b3.2.1, by omega⟩
+
+example : Steps cfgEx (init cfgEx) (init cfgEx) := .refl _
+
+end OxiVerif.C22
+
+/-! ### counter-witnesses: the FULL statement was false of the code BEFORE the repairs
+
+Statements about `OxiVerif.C22Old.step`, the transition relation of the batch module as it was
+before the `fix:` commits for C22-F3 (look at the flag before starting a queued job, flag raised
+before the failure is recorded), C22-F2 (custom jobs raise the flag too) and C22-F1/F1b
+(`catch_unwind` around the operation).  Each witness is a concrete action sequence of that model,
+replayed by the kernel (`decide`); the same requests are in `corpus/C22/*.req` and must now pass
+on the real code.  A change that re-introduces one of these behaviours makes the implementation
+leave the repaired model's reachable set (and fail the oracle). -/
+namespace OxiVerif.C22Old
+
+theorem reachable_runActs {cfg : Cfg} {as : List Act} {s s' : St} (h : Reachable cfg s)
+    (hr : runActs cfg s as = some s') : Reachable cfg s' := by
+  induction as generalizing s with
+  | nil => simp [runActs] at hr; exact hr ▸ h
+  | cons a as ih =>
+    simp only [runActs] at hr
+    split at hr
+    · rename_i s1 hs1; exact ih (.step h hs1) hr
+    · cases hr
+
+/-- run `as` from the initial state and test the final state -/
+def check (cfg : Cfg) (as : List Act) (p : St → Bool) : Bool :=
+  match runActs cfg (init cfg) as with
+  | some s => p s
+  | none => false
+
+theorem check_sound {cfg : Cfg} {as : List Act} {p : St → Bool} (h : check cfg as p = true) :
+    ∃ s, Reachable cfg s ∧ p s = true := by
+  unfold check at h
+  split at h
+  · rename_i s hs; exact ⟨s, reachable_runActs .init hs, h⟩
+  · cases h
+
+
 
 /-- two custom jobs, the second panics, two workers -/
 def cfgW1 : Cfg := ⟨[⟨true, .ok, false⟩, ⟨true, .panic, false⟩], 2, false, false, false, false⟩
@@ -356,4 +704,4 @@ theorem C22_witness_flag_set_after_record :
   rw [hp.1.1] at this
   exact absurd this (by decide)
 
-end OxiVerif.C22
+end OxiVerif.C22Old
